@@ -65,6 +65,10 @@ def gen_cases(tier, seed):
             if org is not None and org + L > 65536:
                 continue
             yield {"id": "size/%d/%s" % (L, org), "lines": lines, "nam": "SZ%d" % L, "cli_name": None, "outs": ["bin", "cas", "dsk"], "sub": False}
+    # several ORG directives in front of the first byte: the program is assembled for the last one (wave 10, C11-N)
+    for i, orgs in enumerate(([0x1000, 0x2000], [0x3000, 0x0E00], [0x10, 0x20, 0x4000], [0x7000, 0x7000], [0x2000, None, 0x1000])):
+        lines = [" NAM ORGS%d\n" % i] + [(" ORG $%X\n" % a) if a is not None else "K EQU 5\n" for a in orgs] + ["START LDA #1\n", " JMP START\n", " RTS\n"]
+        yield {"id": "orgs/%d" % i, "lines": lines, "nam": "ORGS%d" % i, "cli_name": None, "outs": ["bin", "cas", "dsk"], "sub": False}
     # all of memory: 65536 bytes from $0000 (a Disk BASIC machine-language header cannot state that length: the disk file may be refused)
     yield {"id": "size/65536/0", "lines": [" NAM FULL\n", " ORG $0\n", " RMB 65535\n", " NOP\n"], "nam": "FULL", "cli_name": None, "outs": ["bin", "cas", "dsk"], "sub": False}
 
@@ -84,6 +88,11 @@ def _run(case, ctx, d):
             return
         image = bytes(o.image)
         origin = o.origin if o.origin is not None else 0
+        # "at its origin" = where its first byte is assembled for, read from the listing and not from the program's own report
+        first = next((st for st in o.stmts if st["bytes"] and st["addr"] is not None), None)
+        if first is not None:
+            origin = first["addr"]
+            ctx.mon("origin-from-listing")
         argv = ["p.asm"]
         for k in case["outs"]:
             argv += ["--to_" + k, "out." + k]
